@@ -3,7 +3,9 @@
    sweep, and neither is anything from which such an object can be reached (wiping a holder's fields would
    drop a reference to it and so decide *when* it is released).  The implementation computes the kept set by
    iterating "an object with a field referring into the set joins the set" until nothing changes.
-   Proved here, for every heap graph: when that iteration stops, the kept set contains every object that
+   The search starts from the observable objects and from every object reached from the roots (`seeds`): garbage that
+   refers to a live object is kept as well, since what that object holds when it dies may change later.
+   Proved here, for every heap graph and every set of seeds (`obs` is any property the seeds cover): when that iteration stops, the kept set contains every object that
    reaches an observable one; so an object that is swept reaches none, and in particular refers to none. *)
 From Coq Require Import List Arith Bool Lia.
 Import ListNotations.
